@@ -75,6 +75,10 @@ func vShapes() (int, int) {
 
 func vDrawMsg(prevTs int64, epoch uint64, withHeaders bool) (*Message, vStored) {
 	kshape, vshape := vShapes()
+	return vDrawMsgShaped(prevTs, epoch, withHeaders, kshape, vshape)
+}
+
+func vDrawMsgShaped(prevTs int64, epoch uint64, withHeaders bool, kshape, vshape int) (*Message, vStored) {
 	k, knil := vField("key", kshape)
 	v, vnil := vField("val", vshape)
 	ts := vNondetInt64("ts")
@@ -170,18 +174,36 @@ func VerifC01Ops() {
 				vAssert(o == int64(len(model)-bs+i), "assigned offsets are consecutive")
 			}
 			vCover("append")
-		case 1: // replicated message set of 1 message (as produced by a leader)
+		case 1: // replicated message set of 1-3 messages (as a leader's replicator sends it)
 			epoch += uint64(vChoose(2))
-			m, st := vDrawMsg(prevTs, epoch, hdrs)
-			prevTs = st.Timestamp
-			st.Offset = int64(len(model))
-			ms, _, err := newMessageSetFromProto(int64(len(model)), 0, []*Message{m}, false)
+			k := 1 + vChoose(vParam("setsize", 3))
+			base := int64(len(model))
+			var msgs []*Message
+			var sts []vStored
+			for i := 0; i < k; i++ {
+				// the first message of the set draws its shape, the others are
+				// 1-byte key / empty value (shape alphabet x set size stays small)
+				var m *Message
+				var st vStored
+				if i == 0 {
+					m, st = vDrawMsg(prevTs, epoch, hdrs)
+				} else {
+					m, st = vDrawMsgShaped(prevTs, epoch, false, 2, 1)
+				}
+				prevTs = st.Timestamp
+				st.Offset = base + int64(i)
+				msgs = append(msgs, m)
+				sts = append(sts, st)
+			}
+			ms, _, err := newMessageSetFromProto(base, 0, msgs, false)
 			vAssert(err == nil, "message set encodes")
 			offs, err := l.AppendMessageSet(ms)
 			vAssert(err == nil, "AppendMessageSet succeeds")
-			vAssert(len(offs) == 1, "one offset for the replicated message")
-			vAssert(offs[0] == int64(len(model)), "replicated message keeps its offset")
-			model = append(model, st)
+			vAssert(len(offs) == k, "one offset per replicated message")
+			for i, o := range offs {
+				vAssert(o == base+int64(i), "replicated messages keep their offsets")
+			}
+			model = append(model, sts...)
 			vCover("append-set")
 		case 2: // truncate
 			t := vNondetInt64("trunc")
